@@ -1,5 +1,6 @@
 # -*- coding: utf-8 -*-
 
+import threading
 from typing import (
     Any,
     Callable,
@@ -249,19 +250,33 @@ class Executor(ResolutionContext):
         args = list(self._iterate_fields(parent_type, fields))
 
         def _next():
-            try:
+            # Fields whose value is available immediately are chained in a
+            # loop rather than through nested callbacks, which would exhaust
+            # the interpreter's stack for operations with a few hundred
+            # top-level fields.
+            while args:
                 k, f, n = args.pop(0)
-            except IndexError:
-                return resolved_fields
-            else:
+                state = {"thread": threading.get_ident(), "called": False}
 
-                def cb(value):
+                def cb(value, k=k, state=state):
                     resolved_fields[k] = value
+                    if state["thread"] == threading.get_ident():
+                        # Called on this very thread before `map_value`
+                        # returned: the loop below goes on.
+                        state["called"] = True
+                        return resolved_fields
                     return _next()
 
-                return self.runtime.map_value(
+                mapped = self.runtime.map_value(
                     self.resolve_field(parent_type, root, f, n, path + [k]), cb
                 )
+                state["thread"] = None
+
+                if not state["called"]:
+                    # Deferred value, the callback resumes the loop.
+                    return mapped
+
+            return resolved_fields
 
         return _next()
 
